@@ -178,8 +178,12 @@ class TimeDelta:
     def _(cls, seconds: Decimal) -> int:
         with decimal.localcontext() as ctx:
             ctx.prec = _DECIMAL_DIGITS
-            whole_seconds, fractional_seconds = divmod(seconds, 1)
-            ticks = int(whole_seconds) * _TICKS_PER_SECOND
+            # int() truncates toward zero like divmod(seconds, 1), but does not depend on the
+            # context precision, so huge values reach the range check instead of raising
+            # decimal.InvalidOperation. (NaN raises ValueError, infinity raises OverflowError.)
+            whole_seconds = int(seconds)
+            fractional_seconds = seconds - whole_seconds
+            ticks = whole_seconds * _TICKS_PER_SECOND
             ticks += round(fractional_seconds * _TICKS_PER_SECOND)
             return ticks
 
